@@ -42,6 +42,17 @@ using boost::math::constants::two_pi;
 
 using namespace vfps;
 
+/*
+ * Interrupt/fault points for the deterministic-simulation harness in /verif.
+ * Compiled out (expands to nothing) unless INOVESA_VERIF is defined.
+ */
+#ifdef INOVESA_VERIF
+extern "C" void inovesa_verif_point(const char* label);
+#define INOVESA_VERIF_POINT(l) inovesa_verif_point(l)
+#else
+#define INOVESA_VERIF_POINT(l)
+#endif
+
 /**
  * @file
  * @brief main Inovesa file
@@ -83,6 +94,7 @@ int main(int argc, char** argv)
     //Install signal handler for SIGINT
     signal(SIGINT, Display::SIGINT_handler);
     #endif // INOVESA_ENABLE_INTERRUPT
+    INOVESA_VERIF_POINT("handler_installed");
 
     /*
      * Program options might be such that the program does not have
@@ -98,6 +110,7 @@ int main(int argc, char** argv)
         std::cerr << "error: " << e.what() << std::endl;
         return EXIT_FAILURE;
     }
+    INOVESA_VERIF_POINT("options_parsed");
 
     #if INOVESA_USE_OPENCL == 1
     auto cldev = opts.getCLDevice();
@@ -139,6 +152,7 @@ int main(int argc, char** argv)
     #endif // INOVESA_USE_OPENGL
         display = make_display( ofname );
     }
+    INOVESA_VERIF_POINT("display_made");
 
     oclhptr_t oclh(nullptr);
 
@@ -523,6 +537,7 @@ int main(int argc, char** argv)
             return EXIT_SUCCESS;
         }
     }
+    INOVESA_VERIF_POINT("grid_made");
 
     // an initial renormalization might be applied
     if (renormalize >= 0) {
@@ -530,9 +545,11 @@ int main(int argc, char** argv)
 
         grid_t1->normalize(); // works on XProjection
     }
+    INOVESA_VERIF_POINT("grid_normalized");
 
     auto grid_t2 = std::make_shared<PhaseSpace>(*grid_t1);
     auto grid_t3 = std::make_shared<PhaseSpace>(*grid_t1);
+    INOVESA_VERIF_POINT("grids_copied");
 
     // find highest peak for display (and information in the log)
     meshdata_t maxval = std::numeric_limits<meshdata_t>::min();
@@ -659,6 +676,7 @@ int main(int argc, char** argv)
     }
     Display::printText("... with synchronous phase at "+sstream.str());
     } // context of information printing
+    INOVESA_VERIF_POINT("rf_map");
 
     const std::vector<meshaxis_t> slip {{ angle,alpha[1]/alpha[0]*angle,
                                             alpha[2]/alpha[0]*angle }};
@@ -677,6 +695,7 @@ int main(int argc, char** argv)
     auto drm =std::make_unique<DriftMap>( grid_t1,grid_t3,slip
                                         , E0,interpolationtype,interpol_clamp
                                         , oclh );
+    INOVESA_VERIF_POINT("drift_map");
 
     // time constant for damping and diffusion
     const timeaxis_t  e1 = (t_damp > 0) ? 2.0/(fs*t_damp*steps) : 0;
@@ -705,6 +724,7 @@ int main(int argc, char** argv)
         Display::printText("Fokker-Planck-Term is neglected.");
         fpm = new Identity(grid_t3,grid_t1,oclh);
     }
+    INOVESA_VERIF_POINT("fp_map");
 
 
 
@@ -719,12 +739,14 @@ int main(int argc, char** argv)
                                  , oclh
                                  , fmax,R_bend,f_rev,gap,use_csr
                                  , s,xi,collimator_radius,impedance_file);
+    INOVESA_VERIF_POINT("wake_impedance");
 
     Display::printText("For CSR computation:");
     std::shared_ptr<Impedance> rdtn_impedance
             = vfps::makeImpedance( padded_bins
                                  , oclh
                                  , fmax,R_bend,f_rev,(gap>0)?gap:-1);
+    INOVESA_VERIF_POINT("rdtn_impedance");
 
 
     // field for radiation (not for self-interaction)
@@ -732,6 +754,7 @@ int main(int argc, char** argv)
                             , 0 // no spacing
                             , oclh
                             , f_rev, revolutionpart);
+    INOVESA_VERIF_POINT("rdtn_field");
 
     /**************************************************************************
      * Part modeling the self-interaction of the electron-bunch.              *
@@ -761,6 +784,7 @@ int main(int argc, char** argv)
     } else {
         wm = new Identity( grid_t1,grid_t2,oclh);
     }
+    INOVESA_VERIF_POINT("wake_map");
 
     /* Load coordinates for particle tracking.
      * Particle tracking is for visualization puproses only,
@@ -786,6 +810,7 @@ int main(int argc, char** argv)
                           + npart.str()
                           + " particles.");
     }
+    INOVESA_VERIF_POINT("tracking_read");
 
     // initialze the rest of the display elements
     #if INOVESA_USE_OPENGL == 1
@@ -846,15 +871,18 @@ int main(int argc, char** argv)
       || isOfFileType(".hdf5",ofname) ) {
         opts.save(ofname+".cfg");
         Display::printText("Saved configuiration to \""+ofname+".cfg\".");
+        INOVESA_VERIF_POINT("cfg_saved");
         try {
             hdf_file = new HDF5File(ofname,grid_t1, &rdtn_field, wake_impedance,
                                     trackme.size(), t_sync,f_rev);
             Display::printText("Will save results to \""+ofname+"\".");
+            INOVESA_VERIF_POINT("h5_created");
             opts.save(hdf_file);
             hdf_file->addParameterToGroup("/Info","CSRStrength",
                                           H5::PredType::IEEE_F64LE,&S_csr);
             hdf_file->addParameterToGroup("/Info","ShieldingParameter",
                                           H5::PredType::IEEE_F64LE,&shield);
+            INOVESA_VERIF_POINT("h5_params");
         } catch (H5::Exception& e) {
            #if H5_VERS_MAJOR == 1 and H5_VERS_MINOR < 10
            e.printError();
@@ -881,6 +909,7 @@ int main(int argc, char** argv)
 
 
     Display::printText("Starting the simulation.");
+    INOVESA_VERIF_POINT("sim_start");
 
     // time between two status updates (in seconds)
     const auto updatetime = 2.0f;
@@ -892,6 +921,7 @@ int main(int argc, char** argv)
     // 1) the integral
     grid_t1->updateXProjection();
     grid_t1->integrate();
+    INOVESA_VERIF_POINT("init_integral");
     #if INOVESA_USE_OPENCL == 1
     if (oclh) {  // Synchronise here since variance uses _integral
         grid_t1->syncCLMem(OCLH::clCopyDirection::dev2cpu);
@@ -901,8 +931,10 @@ int main(int argc, char** argv)
     // 2) the energy spread (variance in Y direction)
     grid_t1->updateYProjection();
     grid_t1->variance(1);
+    INOVESA_VERIF_POINT("init_variance");
 
     Display::printText(status_string(grid_t1,0,rotations),false);
+    INOVESA_VERIF_POINT("init_status");
 
     #if INOVESA_USE_HDF5 == 1
     const auto h5save = opts.getSavePhaseSpace();
@@ -914,13 +946,16 @@ int main(int argc, char** argv)
             // padded bunch and wake profiles
             wake_field->wakePotential();
             hdf_file->appendPadded(wake_field);
+            INOVESA_VERIF_POINT("init_padded");
         }
         if (h5save == 0) {
             // phase space (if not saved anyways)
             hdf_file->append(*grid_t1,0,HDF5File::AppendType::PhaseSpace);
+            INOVESA_VERIF_POINT("init_ps");
         }
     }
     #endif
+    INOVESA_VERIF_POINT("init_done");
 
 
 
@@ -946,10 +981,12 @@ int main(int argc, char** argv)
      * (everything inside this loop will be run a multitude of times)
      */
     while (simulationstep<laststep && !Display::abort) {
+        INOVESA_VERIF_POINT("loop_head");
         if (wkm != nullptr) {
             // works on XProjection
             wkm->update();
         }
+        INOVESA_VERIF_POINT("wake_updated");
         if (renormalize > 0 && simulationstep%renormalize == 0) {
             // works on XProjection
             grid_t1->integrateAndNormalize();
@@ -957,14 +994,17 @@ int main(int argc, char** argv)
             // works on XProjection
             grid_t1->integrate();
         }
+        INOVESA_VERIF_POINT("normalized");
 
         if (outstep > 0 && simulationstep%outstep == 0) {
+            INOVESA_VERIF_POINT("out_begin");
 
             // works on XProjection
             grid_t1->integrate();
             grid_t1->variance(0);
             grid_t1->updateYProjection();
             grid_t1->variance(1);
+            INOVESA_VERIF_POINT("out_moments");
             #if INOVESA_USE_OPENCL == 1
             if (oclh) {
                 grid_t1->syncCLMem(OCLH::clCopyDirection::dev2cpu);
@@ -983,21 +1023,28 @@ int main(int argc, char** argv)
 
                 hdf_file->append(*grid_t1,
                         static_cast<double>(simulationstep)/steps, at);
+                INOVESA_VERIF_POINT("out_ps_appended");
                 rdtn_field.updateCSR(fc);
+                INOVESA_VERIF_POINT("out_csr_updated");
                 hdf_file->append(&rdtn_field);
+                INOVESA_VERIF_POINT("out_csr_appended");
                 if (wkm != nullptr) {
                     hdf_file->append(wkm);
                 }
+                INOVESA_VERIF_POINT("out_wake_appended");
                 hdf_file->appendTracks(trackme);
+                INOVESA_VERIF_POINT("out_tracks_appended");
 
                 if (drfm) {
                     hdf_file->appendRFKicks(drfm->getPastModulation());
                 }
+                INOVESA_VERIF_POINT("out_rf_appended");
             }
             #endif // INOVESA_USE_HDF5
             #if INOVESA_USE_HDF5 == 1 || INOVESA_USE_OPENGL == 1
             outstepnr++;
             #endif
+            INOVESA_VERIF_POINT("out_counted");
             #if INOVESA_USE_OPENGL == 1
             if (display != nullptr) {
                 if (psv != nullptr) {
@@ -1030,18 +1077,28 @@ int main(int argc, char** argv)
             #endif // INOVESSA_USE_GUI
             Display::printText(status_string(grid_t1,static_cast<float>(simulationstep)/steps,
                                rotations),false,updatetime);
+            INOVESA_VERIF_POINT("out_end");
         }
         wm->apply();
+        INOVESA_VERIF_POINT("wm_applied");
         wm->applyToAll(trackme);
+        INOVESA_VERIF_POINT("wm_tracked");
         rfm->apply();
+        INOVESA_VERIF_POINT("rf_applied");
         rfm->applyToAll(trackme);
+        INOVESA_VERIF_POINT("rf_tracked");
         drm->apply();
+        INOVESA_VERIF_POINT("drift_applied");
         drm->applyToAll(trackme);
+        INOVESA_VERIF_POINT("drift_tracked");
         fpm->apply();
+        INOVESA_VERIF_POINT("fp_applied");
         fpm->applyToAll(trackme);
+        INOVESA_VERIF_POINT("fp_tracked");
 
         // udate for next time step
         grid_t1->updateXProjection();
+        INOVESA_VERIF_POINT("xproj_updated");
 
         #if INOVESA_USE_OPENCL == 1
         if (oclh) {
@@ -1050,7 +1107,9 @@ int main(int argc, char** argv)
         #endif // INOVESA_USE_OPENCL
 
         simulationstep++;
+        INOVESA_VERIF_POINT("step_done");
     } // end of main simulation loop
+    INOVESA_VERIF_POINT("loop_exit");
 
     #if INOVESA_USE_HDF5 == 1
     // save final result
@@ -1058,6 +1117,7 @@ int main(int argc, char** argv)
         if (wkm != nullptr) {
             wkm->update();
         }
+        INOVESA_VERIF_POINT("fin_wake_updated");
         /* Without renormalization at this point
          * the last time step might behave slightly different
          * from the ones before.
@@ -1069,9 +1129,11 @@ int main(int argc, char** argv)
             // works on XProjection
             grid_t1->integrate();
         }
+        INOVESA_VERIF_POINT("fin_normalized");
         grid_t1->variance(0);
         grid_t1->updateYProjection();
         grid_t1->variance(1);
+        INOVESA_VERIF_POINT("fin_moments");
         #if INOVESA_USE_OPENCL == 1
         if (oclh) {
             grid_t1->syncCLMem(OCLH::clCopyDirection::dev2cpu);
@@ -1084,21 +1146,29 @@ int main(int argc, char** argv)
         hdf_file->append(*grid_t1,
                          static_cast<double>(simulationstep)/steps,
                          HDF5File::AppendType::All);
+        INOVESA_VERIF_POINT("fin_ps_appended");
         rdtn_field.updateCSR(fc);
+        INOVESA_VERIF_POINT("fin_csr_updated");
         hdf_file->append(&rdtn_field);
+        INOVESA_VERIF_POINT("fin_csr_appended");
         if (wkm != nullptr) {
             hdf_file->append(wkm);
         }
+        INOVESA_VERIF_POINT("fin_wake_appended");
         hdf_file->appendTracks(trackme);
+        INOVESA_VERIF_POINT("fin_tracks_appended");
 
         if (drfm) {
             hdf_file->appendRFKicks(drfm->getPastModulation());
         }
+        INOVESA_VERIF_POINT("fin_rf_appended");
         if (wake_field != nullptr) {
             hdf_file->appendPadded(wake_field);
         }
+        INOVESA_VERIF_POINT("fin_padded_appended");
     }
     #endif // INOVESA_USE_HDF5
+    INOVESA_VERIF_POINT("final_written");
     #if INOVESA_USE_PNG == 1
     if ( isOfFileType(".png",ofname)) {
         saveToImage(*grid_t1, ofname);
@@ -1109,18 +1179,22 @@ int main(int argc, char** argv)
     Display::printText(status_string(
                            grid_t1, static_cast<float>(
                                simulationstep)/steps, rotations));
+    INOVESA_VERIF_POINT("last_status");
 
     delete wake_field;
 
     delete wm;
     delete fpm;
+    INOVESA_VERIF_POINT("maps_deleted");
 
+    INOVESA_VERIF_POINT("before_report");
     // Print Aborted instead of Finished if it was aborted. Also for log file.
     if(Display::abort) {
         Display::printText("Aborted.");
     } else {
         Display::printText("Finished.");
     }
+    INOVESA_VERIF_POINT("reported");
 
     return EXIT_SUCCESS;
 }
